@@ -61,7 +61,9 @@ def _lin_model(scale=1.0):
     B = [1.0 / np.maximum(i, 1), np.exp(-i / 3.0), (i / 8) ** 2 + 0.1]
 
     def f(p, ns, pts):
-        return dadi.Spectrum(scale * sum(float(pk) * b for pk, b in zip(p, B)))
+        # mildly grid-dependent, as real models are (so that a cache ignoring the grid is visible)
+        gfac = 1.0 + 0.5 / float(np.atleast_1d(pts)[0])
+        return dadi.Spectrum(scale * gfac * sum(float(pk) * b for pk, b in zip(p, B)))
     return f
 
 
@@ -120,19 +122,38 @@ def symbols():
     add('lowpass_projmat_F', lambda: {}, lambda a: LP.projection_matrix(6, 4, 0.5))
     add('ll', lambda: {'m': _fs((9,), 1), 'd': _fs((9,), 2)}, lambda a: np.array([Inference.ll(a['m'], a['d']), Inference.ll_multinom(a['m'], a['d'])]))
     add('ll_folded', lambda: {'m': _fs((5, 4), 1), 'd': _fs((5, 4), 2).fold()}, lambda a: np.array([Inference.ll_multinom(a['m'], a['d'])]))
-    add('object_func', lambda: {'p': np.array([3.0, 2.0, 1.0]), 'd': fA([3.3, 1.9, 1.2], (8,), None)},
+    add('object_func', lambda: {'p': np.array([3.0, 2.0, 1.0]), 'd': fA([3.3, 1.9, 1.2], (8,), [20])},
         lambda a: np.array([Inference._object_func(a['p'], a['d'], fA, [20], store_thetas=True, multinom=True)]))
-    add('optimize_grid', lambda: {'d': fA([3.3, 1.9, 1.2], (8,), None), 'fixed': [None, 2.0, 1.0]},
+    add('optimize_grid', lambda: {'d': fA([3.3, 1.9, 1.2], (8,), [20]), 'fixed': [None, 2.0, 1.0]},
         lambda a: np.array(Inference.optimize_grid(a['d'], fA, [20], (slice(2.0, 4.1, 1.0),), fixed_params=a['fixed'], full_output=True)[0]))
-    add('FIM_A', lambda: {'p': [3.0, 2.0, 1.0], 'd': fA([3.3, 1.9, 1.2], (8,), None)}, lambda a: Godambe.FIM_uncert(fA, [20], a['p'], a['d'], multinom=False))
-    add('FIM_B', lambda: {'p': [3.0, 2.0, 1.0], 'd': fA([3.3, 1.9, 1.2], (8,), None)}, lambda a: Godambe.FIM_uncert(fB, [20], a['p'], a['d'], multinom=False))
+    add('FIM_A', lambda: {'p': [3.0, 2.0, 1.0], 'd': fA([3.3, 1.9, 1.2], (8,), [20])}, lambda a: Godambe.FIM_uncert(fA, [20], a['p'], a['d'], multinom=False))
+    add('FIM_A_pts40', lambda: {'p': [3.0, 2.0, 1.0], 'd': fA([3.3, 1.9, 1.2], (8,), [20])}, lambda a: Godambe.FIM_uncert(fA, [40], a['p'], a['d'], multinom=False))
+    add('FIM_A_intp0', lambda: {'p': [3, 2, 1], 'd': fA([3.3, 1.9, 1.2], (8,), [20])}, lambda a: Godambe.FIM_uncert(fA, [20], a['p'], a['d'], multinom=False))
+
+    def _dd_chroms():
+        d = {}
+        for c, chrom in enumerate(['chr1', 'chr_2', 'sc.3_x', 'chr10', 'X']):
+            for i in range(4):
+                d['%s_%d' % (chrom, 100 * (i + 1) + c)] = {'segregating': ['A', 'T'], 'calls': {'A': (3 + (i + c) % 2, 3 - (i + c) % 2)}, 'outgroup_allele': 'A',
+                                                         'context': '-A-', 'outgroup_context': '-A-'}
+        return d
+
+    def _frag(a):
+        import random
+        frags = Misc.fragment_data_dict(a['dd'], 250)
+        order = np.array([float(sum(ord(ch) for ch in sorted(fr)[0]) if fr else -1.0) + len(fr) for fr in frags])
+        random.seed(11)
+        boots = Misc.bootstraps_from_dd_chunks(frags, 3, ['A'], [4])
+        return np.concatenate([order] + [np.asarray(b.data) for b in boots])
+    add('fragment_bootstrap', lambda: {'dd': _dd_chroms()}, _frag)
+    add('FIM_B', lambda: {'p': [3.0, 2.0, 1.0], 'd': fA([3.3, 1.9, 1.2], (8,), [20])}, lambda a: Godambe.FIM_uncert(fB, [20], a['p'], a['d'], multinom=False))
 
     def boots():
-        base = np.asarray(fA([3.3, 1.9, 1.2], (8,), None).data)
+        base = np.asarray(fA([3.3, 1.9, 1.2], (8,), [20]).data)
         return [dadi.Spectrum(base * (1 + 0.1 * np.sin(np.arange(9) * (0.7 + 0.3 * b) + b))) for b in range(3)]
-    add('LRT_A1', lambda: {'p': [3.0, 2.0, 1.0], 'd': fA([3.3, 1.9, 1.2], (8,), None), 'b': boots()},
+    add('LRT_A1', lambda: {'p': [3.0, 2.0, 1.0], 'd': fA([3.3, 1.9, 1.2], (8,), [20]), 'b': boots()},
         lambda a: np.array([Godambe.LRT_adjust(fA, [20], a['b'], a['p'], a['d'], [2], multinom=False)]))
-    add('LRT_A2', lambda: {'p': [2.5, 2.6, 1.0], 'd': fA([3.3, 1.9, 1.2], (8,), None), 'b': boots()},
+    add('LRT_A2', lambda: {'p': [2.5, 2.6, 1.0], 'd': fA([3.3, 1.9, 1.2], (8,), [20]), 'b': boots()},
         lambda a: np.array([Godambe.LRT_adjust(fA, [20], a['b'], a['p'], a['d'], [2], multinom=False)]))
     add('perturb', lambda: {'p': np.array([1.0, 2.0, 3.0]), 'lo': [0.1, None, 0.5], 'up': [None, 10.0, 4.0]},
         lambda a: (np.random.seed(5), Misc.perturb_params(a['p'], fold=1, lower_bound=a['lo'], upper_bound=a['up']))[1])
@@ -163,7 +184,7 @@ def symbols():
     return S
 
 
-QUICK_SYMS = ['project_1d', 'project_2d', 'from_phi_1d', 'from_phi_2d', 'from_phi_2d_gridB', 'from_phi_inbreeding', 'from_data_dict_1', 'lowpass_projmat_F0',
+QUICK_SYMS = ['fragment_bootstrap', 'FIM_A_pts40', 'project_1d', 'project_2d', 'from_phi_1d', 'from_phi_2d', 'from_phi_2d_gridB', 'from_phi_inbreeding', 'from_data_dict_1', 'lowpass_projmat_F0',
               'lowpass_projmat_F', 'LRT_A1', 'LRT_A2', 'FIM_A', 'object_func', 'optimize_grid', 'two_pops']
 BLAS = {'from_phi_2d', 'from_phi_2d_gridB', 'from_phi_2d_gridC', 'from_phi_3d', 'from_phi_4d', 'reorder_then_sample', 'demes_sfs', 'demes_sfs_BA'}
 
